@@ -42,6 +42,7 @@ use serde_json::{Value, json};
 use tokio::sync::mpsc;
 
 pub mod c01;
+pub mod c03;
 pub mod work;
 
 pub const SCHEMA: &str = r#"
@@ -359,7 +360,9 @@ impl HookTally {
                     *self.clear_commits.entry(node).or_insert(0) += 1;
                 }
                 "piv.merge" => {
-                    *self.piv_cases.entry(classify_piv(&ev.payload)).or_insert(0) += 1;
+                    for k in classify_piv(&ev.payload).split('+') {
+                        *self.piv_cases.entry(k.to_string()).or_insert(0) += 1;
+                    }
                 }
                 _ => {}
             }
